@@ -11,6 +11,7 @@ for d in sorted(glob.glob(os.path.join(HERE, 'seeded', '*'))):
     for tier in ('quick', 'thorough'):
         p = os.path.join(d, 'result_%s.json' % tier)
         if os.path.exists(p): res[tier] = json.load(open(p))
+        elif tier == 'quick' and os.path.exists(os.path.join(d, 'result_quick_partial.json')): res[tier] = json.load(open(os.path.join(d, 'result_quick_partial.json')))
         elif tier == 'thorough' and os.path.exists(os.path.join(d, 'result_thorough_partial.json')): res[tier] = json.load(open(os.path.join(d, 'result_thorough_partial.json')))
     def cell(tier):
         r = res.get(tier)
